@@ -445,6 +445,6 @@ func runLiteral(c LiteralCase, rec *h.Rec) error {
 	return nil
 }
 
-var propLiteral = h.NewProp("TestPropLiteral", h.Budget{Quick: 1200, Thorough: 24000}, genLiteral, runLiteral)
+var propLiteral = h.NewProp("TestPropLiteral", h.Budget{Quick: 800, Thorough: 24000}, genLiteral, runLiteral)
 
 func TestPropLiteral(t *testing.T) { propLiteral.Check(t) }
